@@ -517,8 +517,9 @@ fn fmt_snippet_window_with_mapping_or_fallback(
             start_line.saturating_add(window_end_row).saturating_sub(1)
         }
     };
+    // The caret and separator lines carry a blank gutter as wide as the line numbers.
     let gutter_width = max_display_row.to_string().len();
-    writeln!(f, "  |")?;
+    writeln!(f, "{space:>gutter_width$} |", space = "")?;
 
     let mut cur_row = window_start_row;
     for line in window_text.split_inclusive('\n') {
@@ -542,9 +543,18 @@ fn fmt_snippet_window_with_mapping_or_fallback(
                 .unwrap_or(0);
             let caret_chars = window_text[line_byte_start..local_start].chars().count();
             if msg.is_empty() {
-                writeln!(f, "  | {space:>caret_chars$}^", space = "")?;
+                writeln!(
+                    f,
+                    "{space:>gutter_width$} | {space:>caret_chars$}^",
+                    space = ""
+                )?;
             } else {
-                writeln!(f, "  | {space:>caret_chars$}^ {msg}", space = "", msg = msg)?;
+                writeln!(
+                    f,
+                    "{space:>gutter_width$} | {space:>caret_chars$}^ {msg}",
+                    space = "",
+                    msg = msg
+                )?;
             }
         }
 
@@ -567,14 +577,23 @@ fn fmt_snippet_window_with_mapping_or_fallback(
                 .unwrap_or(0);
             let caret_chars = window_text[line_byte_start..local_start].chars().count();
             if msg.is_empty() {
-                writeln!(f, "  | {space:>caret_chars$}^", space = "")?;
+                writeln!(
+                    f,
+                    "{space:>gutter_width$} | {space:>caret_chars$}^",
+                    space = ""
+                )?;
             } else {
-                writeln!(f, "  | {space:>caret_chars$}^ {msg}", space = "", msg = msg)?;
+                writeln!(
+                    f,
+                    "{space:>gutter_width$} | {space:>caret_chars$}^ {msg}",
+                    space = "",
+                    msg = msg
+                )?;
             }
         }
     }
 
-    writeln!(f, "  |")
+    writeln!(f, "{space:>gutter_width$} |", space = "")
 }
 
 /// Print a message optionally suffixed with a localized location suffix.
